@@ -254,6 +254,8 @@ func (a *nilAnalysis) structFromCell(fl *types.Var, cell nilCell) bool {
 
 func runC11(c *Ctx) {
 	p := c.P
+	// clause shared with C08: a Read never reports more bytes than it wrote (io.Reader contract; callers panic)
+	defer c.ImportRules("C08", "C08.1")
 	reach := p.RequestTimeReach()
 
 	c.Rule("C11.1", "every non-constant index into a fixed-size lookup table is proven in range", 3)
